@@ -277,6 +277,29 @@ fn check(ctx: &mut Ctx, s: &str, other_spelling: Option<&str>) {
     bytes_type!(ctx, s, "uri::Fragment", uri::Fragment, uri::FragmentBuf, Prod::Fragment, 1);
     bytes_type!(ctx, s, "Scheme", uri::Scheme, uri::SchemeBuf, Prod::Scheme, 0);
     bytes_type!(ctx, s, "Port", uri::Port, uri::PortBuf, Prod::Port, 0);
+    // conversion to an owned percent-encoded string: same text, for every valid value
+    macro_rules! pct_route {
+        ($name:literal, $TBuf:ty) => {
+            if let Ok(o) = <$TBuf>::new(s.to_string().into()) {
+                ctx.call("into_pct_string");
+                match guard(|| { let p = o.clone().into_pct_string(); (p.as_str().to_string(), o.as_pct_str().as_str().to_string()) }) {
+                    Ok((owned, borrowed)) => {
+                        same(ctx, $name, "into_pct_string", s.as_bytes(), owned.as_bytes());
+                        same(ctx, $name, "as_pct_str", s.as_bytes(), borrowed.as_bytes());
+                    }
+                    Err(m) => ctx.fail("C14.panic", feats($name, "into_pct_string"), format!("into_pct_string()/as_pct_str() of {} panicked: {}", show(s.as_bytes()), m)),
+                }
+            }
+        };
+    }
+    pct_route!("iri::UserInfo", iri::UserInfoBuf);
+    pct_route!("iri::Host", iri::HostBuf);
+    pct_route!("iri::Query", iri::QueryBuf);
+    pct_route!("iri::Fragment", iri::FragmentBuf);
+    pct_route!("uri::UserInfo", uri::UserInfoBuf);
+    pct_route!("uri::Host", uri::HostBuf);
+    pct_route!("uri::Query", uri::QueryBuf);
+    pct_route!("uri::Fragment", uri::FragmentBuf);
     // an M-eq-equal but textually different value must compare UNEQUAL to the string
     if let Some(o) = other_spelling {
         if o != s {
